@@ -15,18 +15,20 @@ CONSTANTS InitBound,      \* initial size
           MaxBound,       \* grow() is explored up to this size
           MaxPend,        \* max. number of shrink() calls blocked at once
           FineClear,      \* BOOLEAN, see above
-          ClearLocked     \* BOOLEAN: clear() runs under the condition lock (the repaired code)
+          ClearLocked,    \* BOOLEAN: clear() runs under the condition lock (the repaired code)
+          FineRelease     \* BOOLEAN: a second thread's release() may be parked at the lock boundary
 
 VARIABLES value,          \* Semaphore._value
           bound,          \* _initial_value
           pend,           \* shrink() calls blocked in acquire()
           clr,            \* "idle" | "inc": a clear() that has seen value < bound
+          rel,            \* "idle" | "parked": another thread's release() waits for the lock
           act             \* history: label of the last action (hidden by VIEW)
 
-vars == <<value, bound, pend, clr, act>>
-View == <<value, bound, pend, clr>>
+vars == <<value, bound, pend, clr, rel, act>>
+View == <<value, bound, pend, clr, rel>>
 
-Init == /\ value = InitBound /\ bound = InitBound /\ pend = 0 /\ clr = "idle"
+Init == /\ value = InitBound /\ bound = InitBound /\ pend = 0 /\ clr = "idle" /\ rel = "idle"
         /\ act = [name |-> "Init"]
 
 (* ---- pure next-value operators, shared with Pool.tla -------------------- *)
@@ -40,21 +42,21 @@ Acquire ==   \* acquire(False)
     /\ IF value > 0
          THEN value' = value - 1 /\ act' = [name |-> "Acquire", ret |-> TRUE]
          ELSE value' = value /\ act' = [name |-> "Acquire", ret |-> FALSE]
-    /\ UNCHANGED <<bound, pend, clr>>
+    /\ UNCHANGED <<bound, pend, clr, rel>>
 
 Release ==
     /\ IF value < bound
          THEN /\ value' = Give(value, pend)[1] /\ pend' = Give(value, pend)[2]
          ELSE UNCHANGED <<value, pend>>
     /\ act' = [name |-> "Release"]
-    /\ UNCHANGED <<bound, clr>>
+    /\ UNCHANGED <<bound, clr, rel>>
 
 Grow ==
     /\ bound < MaxBound
     /\ bound' = bound + 1
     /\ value' = Give(value, pend)[1] /\ pend' = Give(value, pend)[2]
     /\ act' = [name |-> "Grow"]
-    /\ UNCHANGED clr
+    /\ UNCHANGED <<clr, rel>>
 
 Shrink ==
     /\ bound > 0
@@ -62,7 +64,7 @@ Shrink ==
     /\ IF value > 0 THEN value' = value - 1 /\ pend' = pend
                     ELSE pend < MaxPend /\ value' = value /\ pend' = pend + 1
     /\ act' = [name |-> "Shrink"]
-    /\ UNCHANGED clr
+    /\ UNCHANGED <<clr, rel>>
 
 (* clear() as one atomic step (the loop runs under the lock, or no other thread is  *)
 (* inside): raises value to bound; each notify wakes one blocked shrink(), which    *)
@@ -75,13 +77,13 @@ Clear ==      \* whole call, no other thread inside
     /\ ~FineClear /\ (ClearLocked \/ pend = 0)
     /\ value' = ClearAll(value, bound, pend)[1] /\ pend' = ClearAll(value, bound, pend)[2]
     /\ act' = [name |-> "Clear"]
-    /\ UNCHANGED <<bound, clr>>
+    /\ UNCHANGED <<bound, clr, rel>>
 
 ClearCheck == \* unlocked: the loop test made outside the lock; locked: the call begins
     /\ FineClear /\ clr = "idle" /\ (ClearLocked \/ value < bound)
     /\ clr' = "inc"
     /\ act' = [name |-> "ClearCheck"]
-    /\ UNCHANGED <<value, bound, pend>>
+    /\ UNCHANGED <<value, bound, pend, rel>>
 
 ClearInc ==   \* unlocked: threading.Semaphore.release(), an unconditional increment;
               \* locked: the whole loop
@@ -91,9 +93,23 @@ ClearInc ==   \* unlocked: threading.Semaphore.release(), an unconditional incre
          ELSE value' = Give(value, pend)[1] /\ pend' = Give(value, pend)[2]
     /\ clr' = "idle"
     /\ act' = [name |-> "ClearInc"]
-    /\ UNCHANGED bound
+    /\ UNCHANGED <<bound, rel>>
 
-Next == Acquire \/ Release \/ Grow \/ Shrink \/ Clear \/ ClearCheck \/ ClearInc
+(* release() called by a second thread (result handler and supervisor both release slots): it
+   arrives at the lock, and makes its test and its increment once it has it *)
+ReleaseArrive ==
+    /\ FineRelease /\ rel = "idle" /\ rel' = "parked"
+    /\ act' = [name |-> "ReleaseArrive"]
+    /\ UNCHANGED <<value, bound, pend, clr>>
+ReleaseDo ==
+    /\ FineRelease /\ rel = "parked" /\ rel' = "idle"
+    /\ IF value < bound
+         THEN /\ value' = Give(value, pend)[1] /\ pend' = Give(value, pend)[2]
+         ELSE UNCHANGED <<value, pend>>
+    /\ act' = [name |-> "ReleaseDo"]
+    /\ UNCHANGED <<bound, clr>>
+
+Next == Acquire \/ Release \/ Grow \/ Shrink \/ Clear \/ ClearCheck \/ ClearInc \/ ReleaseArrive \/ ReleaseDo
 
 Spec == Init /\ [][Next]_vars
 
@@ -113,7 +129,7 @@ ResizeByOne     == [][/\ act'.name = "Grow"   => bound' = bound + 1 /\ value' + 
                       /\ act'.name \notin {"Grow", "Shrink"} => bound' = bound]_vars
 
 (* ---- binding ---------------------------------------------------------------- *)
-Proj == [value |-> value, bound |-> bound, pend |-> pend, clr |-> clr]
+Proj == [value |-> value, bound |-> bound, pend |-> pend, clr |-> clr, rel |-> rel]
 EmitEdge == PrintT(ToJson([from |-> Proj, act |-> act', to |-> Proj', lvl |-> TLCGet("level")]))
 EmitInit == TLCGet("level") > 1 \/ PrintT(ToJson([init |-> Proj]))
 =============================================================================
